@@ -304,28 +304,66 @@ def run_obligation(ob_id, opts):
                                                vc="pc => " + _short(chk.cond), backend=info))
             elif st == 'refuted':
                 path_ok = False
-                vals = model_values(info, chk.vars)
-                r2, t2, err2, hit2 = replay_concrete(ob, vals, chk.choices)
-                labs = [(lab, ok, d) for lab, ok, d in r2 if lab == chk.label]
-                native_fail = [x for x in labs if not x[1]]
+                # replay the counter-model on the real code; if it does not fail there, ask for other models
+                # (callee models may be over-approximate: only a replayed failure counts as a violation)
+                tried = []
+                confirmed_entry = None
+                last = None
+                model = info
+                blocker = []
+                for attempt in range(6):
+                    vals = model_values(model, chk.vars)
+                    r2, t2, err2, hit2 = replay_concrete(ob, vals, chk.choices)
+                    labs = [(lab, ok, d) for lab, ok, d in r2 if lab == chk.label]
+                    native_fail = [x for x in labs if not x[1]]
+                    entry = dict(clause=chk.label, values=_json_safe(vals), choices=_json_safe(chk.choices),
+                                 model=str(model)[:2000], detail=_json_safe(native_fail[0][2] if native_fail else chk.detail),
+                                 native_results=_json_safe(r2[:20]), native_trace=_json_safe(t2[:40]),
+                                 replay_error=err2, trace=_json_safe(chk.trace[:40]))
+                    last = (entry, labs, err2, vals)
+                    if native_fail:
+                        entry['confirmed'] = True
+                        confirmed_entry = entry
+                        break
+                    tried.append(vals)
+                    # block this assignment of the declared inputs and ask again
+                    lits = []
+                    for nm, sv in chk.vars.items():
+                        try:
+                            lits.append(sv.t != model.eval(sv.t, model_completion=True))
+                        except z3.Z3Exception:
+                            pass
+                    if not lits:
+                        break
+                    blocker.append(z3.Or(*lits))
+                    s2 = z3.Solver()
+                    s2.set('timeout', timeout_ms)
+                    for cnd in chk.pc:
+                        s2.add(cnd)
+                    for fid, reg in chk.regions:
+                        if fid in excluded:
+                            s2.add(z3.Not(reg))
+                    s2.add(z3.Not(chk.cond))
+                    for b in blocker:
+                        s2.add(b)
+                    if s2.check() != z3.sat:
+                        break
+                    model = s2.model()
                 is_loop_vc = chk.label.startswith('loop[')
-                entry = dict(clause=chk.label, values=_json_safe(vals), choices=_json_safe(chk.choices),
-                             model=str(info)[:2000], detail=_json_safe(chk.detail),
-                             native_results=_json_safe(r2[:20]), native_trace=_json_safe(t2[:40]),
-                             replay_error=err2, trace=_json_safe(chk.trace[:40]))
-                if native_fail:
-                    entry['confirmed'] = True
-                    res['refuted'].append(entry)
+                entry, labs, err2, vals = last
+                if confirmed_entry is not None:
+                    res['refuted'].append(confirmed_entry)
                 elif is_loop_vc:
                     res['undecided'].append("%s: loop annotation not established/inductive for this code (counter-model "
                                             "is not a failing input): %s" % (chk.label, _json_safe(vals)))
+                elif path.overapprox:
+                    res['undecided'].append("%s: %d counter-models of the VC do not fail on the real code; the path uses "
+                                            "an over-approximate callee model (%s): %s" % (
+                                                chk.label, len(tried), '; '.join(sorted(set(path.overapprox))),
+                                                _json_safe(tried[:2])))
                 elif err2 is not None and not labs:
-                    # the native run died before reaching the clause
-                    entry['confirmed'] = False
-                    entry['note'] = 'native replay failed before the clause was evaluated'
                     res['crashes'].append("replay of counter-model for %s failed: %s" % (chk.label, err2))
                 else:
-                    entry['confirmed'] = False
                     res['crashes'].append(
                         "counter-model for %s does not fail natively: values=%r choices=%r native=%r "
                         "(encoding disagrees with CPython)" % (chk.label, vals, chk.choices, labs))
